@@ -27,6 +27,7 @@ STD_VARIANTS = [
     ("augmented", "G2u", {"flow_proposal_class": "AugmentedFlowProposal", "marginalise_augment": True, "n_marg": 5, "max_iteration": 500}),
     ("gw", "GW5", {"flow_proposal_class": "GWFlowProposal", "max_iteration": 450}),
     ("memory-reset", "G2u", {"memory": 50, "reset_weights": 2}),
+    ("custom-resume-file", "G2u", {"resume_file": "state_of_my_run.pkl"}),
 ]
 INS_VARIANTS = [
     ("ins-default", "G2u", {}),
@@ -35,6 +36,8 @@ INS_VARIANTS = [
     ("ins-strict-variable", "G2n", {"strict_threshold": True, "draw_constant": False}),
     ("ins-keep-old-checkpoint", "G2u", {"save_existing_checkpoint": True, "save_log_q": True}),
     ("ins-maf", "G2u", {"flow_config": {"ftype": "maf"}, "max_iteration": 8}),
+    ("ins-custom-resume-file", "G2u", {"resume_file": "state_of_my_run.pkl", "save_log_q": True}),
+    ("ins-time-schedule", "G2u", {"checkpoint_on_iteration": False, "checkpoint_interval": 0.0}),
 ]
 
 
@@ -172,7 +175,7 @@ def main():
         variants = INS_VARIANTS if ins else STD_VARIANTS
         vname, model, kw = variants[(i // 3) % len(variants)]
         sname, sched = SCHEDULES[int(rng.integers(len(SCHEDULES)))] if not ins else ("every-iteration", dict(checkpoint_on_iteration=True, checkpoint_interval=1 if chk.quick else int(rng.choice([1, 1, 2]))))
-        kw = dict(kw, checkpointing=True, seed=int(rng.integers(1, 2**31 - 1)), **sched)
+        kw = dict(dict(kw, checkpointing=True, seed=int(rng.integers(1, 2**31 - 1))), **{k: v for k, v in sched.items() if k not in kw})
         nk = int(rng.integers(1, 4 if chk.quick else 6))
         # the importance sampler checkpoints at iteration boundaries (every ~400 likelihood points here): kill points are spread so that most histories
         # contain at least one completed checkpoint, and some are killed before the first one
